@@ -11,7 +11,7 @@ for d in sorted(os.listdir(os.path.join(ROOT, "seeded"))):
     if not (os.path.exists(mp) and os.path.exists(notes)):
         continue
     m = json.load(open(mp))
-    n = 1 if d[-1] in "acegik" else 2
+    n = 1 if d[-1] in "acegikm" else 2
     text = open(notes, errors="replace").read()
     secs = re.split(r"(?m)^#+\s*Change\s*(\d)\b", text)
     body, title = "", m.get("title", "")
